@@ -107,6 +107,37 @@ def triples():
                 yield key, tree, None
 
 
+EXPR_PARENTS = ("Neg", "Not", "Sum2", "Product2", "Conditional", "MathFunction1", "Add", "Sub", "Mul", "Div", "EQ", "NE", "LT", "GT", "LE", "GE", "And", "Or")
+SENSITIVE_CHILDREN = ("Sum", "Conditional", "Neg", "LT", "And", "LiteralFloat-", "Div", "Symbol")
+
+
+def quads(full=False):
+    """Depth-3 trees (outer parent, position, inner parent, position, child): every pair of expression operators with the
+    children whose text begins or ends with a parenthesis, sign or operator (all children when `full`).  A formatter
+    decision that looks at the TEXT of an operand instead of its class shows up only at this depth."""
+    ch = child_makers()
+    ps = parents()
+    kinds = list(ch) if full else [c for c in ch if c in SENSITIVE_CHILDREN]
+    for p1 in EXPR_PARENTS:
+        a1, b1 = ps[p1]
+        for k1 in range(a1):
+            for p2 in EXPR_PARENTS:
+                a2, b2 = ps[p2]
+                for k2 in range(a2):
+                    for cname in kinds:
+                        key = f"{p1}/{k1}/{p2}/{k2}/{cname}"
+                        try:
+                            inner = [default_child(p2, m) for m in range(a2)]
+                            inner[k2] = ch[cname]()
+                            outer = [default_child(p1, m) for m in range(a1)]
+                            outer[k1] = b2(inner)
+                            tree = b1(outer)
+                        except Exception as e:  # noqa: BLE001 - rejected by the real constructors
+                            yield key, None, f"{type(e).__name__}: {e}"
+                            continue
+                        yield key, tree, None
+
+
 # --------------------------------------------------------------------------- canonical form
 def lit(v):
     if isinstance(v, complex):
